@@ -340,7 +340,7 @@ class ObjectDomain(LazyGenerators, EffectDomain):
                 return self._eval_class_expr(interp, got[0], got[1], st, fr)
         if self.track(key) or key in self.results:
             return [val(("method", attr), st)]
-        if self.closed_private and attr.startswith("__") and not attr.endswith("__"):
+        if self.root_attr_absent(attr):
             return [exc(("exc", "AttributeError"), st)]
         return [val(TOP, st)]
 
@@ -401,9 +401,15 @@ class ObjectDomain(LazyGenerators, EffectDomain):
         got = self._class_attr_expr(fr.receiver, chain[1])
         if got is not None:
             return self._eval_class_expr(interp, got[0], got[1], st, fr)
-        if self.closed_private and chain[1].startswith("__") and not chain[1].endswith("__"):
-            return [exc(("exc", "AttributeError"), st)]   # a name-mangled attribute nobody assigned
+        if self.root_attr_absent(chain[1]):
+            return [exc(("exc", "AttributeError"), st)]   # an attribute nobody assigned
         return None
+
+    def root_attr_absent(self, attr):
+        """Is an attribute of the analysed object that neither the state, the environment nor the classes of the
+        repository define known not to exist?  (Name-mangled ones under ``closed_private``; domains that know the
+        external base classes of the object say more.)"""
+        return self.closed_private and attr.startswith("__") and not attr.endswith("__")
 
     # The analysed object was built by its real constructor: a name-mangled attribute (self.__x -- only the class's own
     # code can assign it) that is neither in the state nor defined by the class does not exist.
